@@ -126,7 +126,10 @@ VERIF_VBH_PROTO(5) { __CPROVER_assert (0, "_dbus_validate_body_with_reason is ou
 #define VERIF_MAXBODY _DBUS_STRING_MAX_LENGTH
 #endif
 #ifndef VERIF_CASE_ID
-#define VERIF_CASE_ID 0   /* 0 = no case split (one monolithic unit); 1..4 = the class of tool/units/c01p.py */
+#define VERIF_CASE_ID 0   /* 0 = no case split (one monolithic unit); 1..5 = the class of tool/units/c01p.py */
+#endif
+#if VERIF_CASE_ID != 0
+_Static_assert (VERIF_HEAD_CALLS == 1, "C01p: the case split over type codes needs exactly one _dbus_type_reader_get_current_type (reader) per loop iteration");
 #endif
 #ifndef VERIF_TAIL
 #define VERIF_TAIL 7      /* bytes of the object after `end`: see the header comment */
@@ -188,6 +191,9 @@ void harness (void)
 #if VERIF_CASE_ID == 0 || VERIF_CASE_ID == 4
   if (v == DBUS_INVALID_VARIANT_SIGNATURE_SPECIFIES_MULTIPLE_VALUES) REACH ("variant-multiple");
   if (verif_site3) REACH ("recursion-variant");
+#endif
+#if VERIF_CASE_ID == 0 || VERIF_CASE_ID == 5
   if (verif_site4) REACH ("recursion-struct");
+  if (verif_site4 && v == DBUS_VALID && walk) REACH ("struct-then-more-values");
 #endif
 }
